@@ -1,15 +1,15 @@
 CONSTANTS
-  Ext <- NoExtensions
+  Ext <- AllExtensions
   Conv = "empty"
-  Variants = FALSE
+  Variants = TRUE
   Syntax <- SyntaxAsExt
-  Defects = TRUE
+  Defects = FALSE
   Mode = "sim"
   Kernel = "full"
   MaxBlocks = 7
   MaxItems = 6
   MaxComps = 8
-INIT Init
+INIT InitCRLF
 NEXT Next
-INVARIANTS InvConsistent InvValidity Emit
+INVARIANTS InvConsistent InvValidRefs InvValidity Emit
 CHECK_DEADLOCK FALSE
